@@ -12,6 +12,15 @@ format of the content, irregular results (center, arithmetic) must decode to the
 content.  Numeric results (mean, smooth, norm, ...) are compared between the
 encodings directly (differential), with NaN-freeness, and with the dense twin when
 nothing is missing.
+
+Open finding F14 (P-spline mean of irregular data = smoothed LAST observation per grid
+point): mean / center / covariance / inner_product with method_smoothing="PS" are judged
+against two reference computations that feed the REAL `PSplines` smoother (property C05)
+with a layout of the long table on the grid — the CORRECT pooled layout (mean of the
+observations at a point, weight = their number) and the DEFECT layout (last observation,
+weight 1, weight 0 where it is exactly 0).  Both layouts are checked against the Coq
+model (`format_pooled` / `format_last`).  Correct model first; F14 only if every encoding
+equals the defect model to 1e-9; anything else is a violation.
 """
 from __future__ import annotations
 
@@ -115,6 +124,11 @@ def gen_cases(rng, quick):
             kind = ["arange", "gaps", "doy"][k % 3]
             grid = int_grid(rng, m, kind)
             x = np.round(rng.normal(size=(n, m)) * 64) / 64
+            if k % 4 == 1:
+                # an observed value that is EXACTLY zero, at the last curve observing that point (F14: weight 0 rule)
+                j = int(rng.integers(m))
+                i = int(np.flatnonzero(mask[:, j])[-1])
+                x[i, j] = 0.0
             yield (f"exhaustive-{n}x{m}/{kind}", grid, x, mask, True)
     n_rand = 8 if quick else 400
     for k in range(n_rand):
@@ -166,6 +180,11 @@ def operations(grid):
         ("mul", lambda d: d * d),
         ("div", lambda d: d / ((d * d) + 1.0)),
         ("scalar", lambda d: (d * 2.5) + 1.0),
+    ]
+    ops += [
+        ("center-PS", lambda d: d.center(method_smoothing="PS", **ps)),
+        ("covariance-PS-center", lambda d: d.covariance(method_smoothing="PS", smooth=False, kwargs_center=dict(ps))),
+        ("inner_product-PS", lambda d: d.inner_product(method_smoothing="PS", **ps)),
     ]
     if m >= 4:
         ops.append(("covariance-LP", lambda d: d.covariance(method_smoothing="LP", kwargs_center={"bandwidth": h},
@@ -229,6 +248,127 @@ def irregular_raw(v, grid):
 
 TOL = {"smooth-PS": 1e-6, "smooth-PS-penalty10": 1e-6, "mean-PS": 1e-6, "covariance-LP": 1e-7,
        "smooth-LP-degree2": 1e-7}
+
+
+# ---------------------------------------------------------------- F14: P-spline mean of irregular data
+F14 = "F14"
+F14_WHAT = ("IrregularFunctionalData.mean(method_smoothing='PS') (hence center / covariance / inner_product with "
+            "method_smoothing='PS') fits the P-spline to the LAST observed value per grid point with weight 1 (an observed "
+            "value exactly 0 gets weight 0) instead of the pooled observations (psplines.py:_format_data)")
+F14_OPS = ("mean-PS", "center-PS", "covariance-PS-center", "inner_product-PS")
+
+
+def layouts(x, mask):
+    """(y_grid, weights) handed to the P-spline fit, on the grid of observed abscissae (= the whole grid here):
+       correct — mean of the values observed at the point, weight = their number (pooled penalised least squares);
+       defect  — the LAST value observed at the point in long-table order (curve by curve), weight 1, weight 0
+                 where that value is exactly 0 (or nothing is observed)."""
+    cnt = mask.sum(axis=0).astype(float)
+    pooled = np.where(mask, x, 0.0).sum(axis=0) / cnt
+    last = np.zeros(x.shape[1])
+    for i in range(x.shape[0]):          # long-table order: later curves overwrite earlier ones
+        last[mask[i]] = x[i][mask[i]]
+    w_last = np.ones_like(last)
+    w_last[last == 0] = 0
+    return (pooled, cnt), (last, w_last)
+
+
+def ps_mean_model(grid, y, w, ps):
+    """the REAL P-spline smoother (property C05) on a prescribed layout, with the options `mean` uses"""
+    from FDApy.preprocessing.smoothing.psplines import PSplines
+    kw = {k: v for k, v in ps.items() if k != "penalty"}
+    model = PSplines(**kw)
+    model.fit(x=[np.asarray(grid, dtype=float).copy()], y=np.asarray(y, dtype=float).copy(),
+              sample_weights=np.asarray(w, dtype=float).copy(), penalty=ps["penalty"])
+    return np.asarray(model.predict([np.asarray(grid, dtype=float).copy()]), dtype=float)
+
+
+def f14_expected(name, grid, x, mask, mean_curve, noise_var):
+    """what the operation must return when the mean curve is `mean_curve`; everything downstream of the mean
+    is the real code (centring is a subtraction; raw covariance / Gram matrix are properties C09 / C08)"""
+    if name == "mean-PS":
+        return [mean_curve[np.newaxis]]
+    centred = fd.irregular([grid[mask[i]].copy() for i in range(x.shape[0])],
+                           [x[i][mask[i]] - mean_curve[mask[i]] for i in range(x.shape[0])])
+    if name == "center-PS":
+        return [np.asarray(v, dtype=float) for v in centred.values.values()]
+    with warnings.catch_warnings():
+        warnings.simplefilter("ignore")
+        if name == "covariance-PS-center":
+            return [np.asarray(centred.covariance(center=False, smooth=False).values, dtype=float)]
+        if name == "inner_product-PS":
+            return [np.asarray(centred.smooth(method="interpolation").inner_product(
+                method_integration="trapz", method_smoothing=None, noise_variance=noise_var), dtype=float)]
+    raise ValueError(name)
+
+
+def f14_parts(name, value, mask):
+    """the implementation's result in the same shape as f14_expected; None when it is malformed"""
+    if name == "center-PS":
+        if kind_of(value) != "irregular":
+            return None
+        parts = []
+        for i, k in enumerate(value.values.keys()):
+            v = np.asarray(value.values[k], dtype=float)
+            if v.shape == mask[i].shape and mask[i].sum() != mask[i].size:      # on the common grid: NaN exactly off-support
+                if not np.isnan(v[~mask[i]]).all():
+                    return None
+                v = v[mask[i]]
+            elif v.shape == mask[i].shape and np.isnan(v).any():
+                return None
+            parts.append(v)
+        return parts
+    a, _ = as_array(value)
+    return [a]
+
+
+def judge_f14(rep, name, res, grid, x, mask, ps, noise_var, case, dense_twin, models):
+    """correct model first, then the defect model, else violation"""
+    key = (case["case"], name)
+    rep.case(key, kind=case["generator"], sample={"generator": case["generator"], "n_obs": x.shape[0], "n_grid": x.shape[1],
+                                                   "operation": name, "missing": int((~mask).sum())})
+    bad = [f"{k} encoding raised {r[1]}" for k, r in res.items() if r[0] != "ok"]
+    if bad:
+        rep.disagreements_checked += 1
+        limited_violation(rep, name + "/raises", f"{name}: " + "; ".join(bad), case)
+        return
+    try:
+        exp_ok = f14_expected(name, grid, x, mask, models["ok"], noise_var)
+        exp_def = f14_expected(name, grid, x, mask, models["def"], noise_var)
+    except Exception as e:  # noqa: BLE001
+        limited_violation(rep, name + "/model", f"{name}: the reference computation failed: {type(e).__name__}: {e}"[:200], case)
+        return
+    parts = {k: f14_parts(name, r[1], mask) for k, r in res.items()}
+    for k, pr in parts.items():
+        if pr is None:
+            rep.disagreements_checked += 1
+            limited_violation(rep, f"{name}/malformed/{k}", f"{name}: malformed result for the {k} encoding "
+                              f"(wrong type, or samples where the content has none)", case)
+            return
+        if any(np.isnan(a).any() for a in pr):
+            rep.disagreements_checked += 1
+            limited_violation(rep, f"{name}/nan/{k}", f"{name}: NaN in the result for the {k} encoding although all observed "
+                              f"samples are finite", case)
+            return
+
+    def matches(pr, exp, tol):
+        return len(pr) == len(exp) and all(close(a, b, tol)[0] for a, b in zip(pr, exp))
+    tol_ok = TOL.get("mean-PS", 1e-6)
+    if all(matches(pr, exp_ok, tol_ok) for pr in parts.values()):
+        return
+    rep.disagreements_checked += 1
+    if all(matches(pr, exp_def, 1e-9) for pr in parts.values()):
+        rep.known_finding(F14, F14_WHAT, {"operation": name, "grid": [float(g) for g in grid], "values": x.tolist(),
+                                          "mask": mask.astype(int).tolist(), "ps": ps,
+                                          "implementation": [a.tolist() for a in parts["nan"]][:3],
+                                          "pooled_model": [a.tolist() for a in exp_ok][:3],
+                                          "last_observation_model": [a.tolist() for a in exp_def][:3]})
+        return
+    who = [k for k, pr in parts.items() if not matches(pr, exp_def, 1e-9) and not matches(pr, exp_ok, tol_ok)]
+    limited_violation(rep, f"{name}/neither", f"{name}: the result for the {', '.join(who)} encoding(s) equals neither the pooled "
+                      f"(correct) model nor the last-observation defect model F14", 
+                      {**case, "result": {k: [C.hexf(a) for a in pr] for k, pr in parts.items()},
+                       "pooled_model": [C.hexf(a) for a in exp_ok], "last_observation_model": [C.hexf(a) for a in exp_def]})
 
 
 # ---------------------------------------------------------------- the check
@@ -309,10 +449,37 @@ def check_case(rep, run, pending, tmpdir, idx, label, grid, x, mask, from_csv):
     # ---- operations: differential between the encodings, NaN-freeness, dense twin
     ops, h, ps = operations(grid)
     min_samples = int(mask.sum(axis=1).min())
+    # F14: the two layouts of the long table (checked against the Coq model) and the two mean curves
+    (y_pool, w_pool), (y_last, w_last) = layouts(x, mask)
+    lay = lambda y, w: "[" + "; ".join(f"({C.qlit(a)}, {C.qlit(b)})" for a, b in zip(y, w)) + "]"
+    terms.append(("the harness layouts of the long table are format_pooled / format_last of the content",
+                  f"layouts_ok {C.qlit(1e-12 * max(1.0, float(np.max(np.abs(x)))))} {g} {ct} {lay(y_pool, w_pool)} {lay(y_last, w_last)}"))
+    f14_models = None
+    try:
+        with warnings.catch_warnings():
+            warnings.simplefilter("ignore")
+            f14_models = {"ok": ps_mean_model(grid, y_pool, w_pool, ps).reshape(-1),
+                          "def": ps_mean_model(grid, y_last, w_last, ps).reshape(-1)}
+            noise_var = enc["ragged"].noise_variance(order=2)
+    except Exception as e:  # noqa: BLE001
+        limited_violation(rep, "f14/model", f"P-spline reference fit failed: {type(e).__name__}: {e}"[:200], base)
+    if complete and f14_models is not None:
+        # model validation: for complete data the pooled fit IS the dense twin's estimator (the dense code fits the
+        # average curve with unit weights, i.e. the same criterion with penalty / n_obs)
+        tw = outcome(lambda: dense_twin.mean(method_smoothing="PS", **{**ps, "penalty": ps["penalty"] / n}))
+        rep.case((idx, "mean-PS", "twin"), kind="dense-twin")
+        if tw[0] != "ok" or not close(np.asarray(tw[1].values, dtype=float).reshape(-1), f14_models["ok"], 1e-6)[0]:
+            limited_violation(rep, "mean-PS/model-vs-twin", "mean-PS: the pooled reference fit is not the dense twin's "
+                              "P-spline mean (same criterion, penalty / n_obs)", {**base, "twin": str(tw[1])[:200]})
     for name, f in ops:
         if name in NEEDS3 and min_samples < 3:
             continue
         res = {k: outcome(lambda: f(d)) for k, d in enc.items()}
+        if name in F14_OPS:
+            if f14_models is not None:
+                judge_f14(rep, name, res, grid, x, mask, ps, noise_var, {**base, "operation": name, "ps": ps},
+                          dense_twin, f14_models)
+            continue
         key = (idx, name)
         case = {**base, "operation": name, "bandwidth": h, "ps": ps}
         ref = res["nan"]
@@ -398,7 +565,6 @@ def twin_check(rep, name, f, dense_twin, a_ref, n, h, ps, case, tol):
     """complete content: the same operation with the same smoothing settings on the equivalent dense dataset"""
     equivalent = {
         "mean-LP": lambda d: d.mean(method_smoothing="LP", bandwidth=h),
-        "mean-PS": lambda d: d.mean(method_smoothing="PS", **ps),
         "smooth-LP": f, "smooth-LP-degree2": f, "smooth-PS": f, "smooth-PS-penalty10": f,
         "norm": f, "norm-squared-stand": f, "noise_variance-1": f, "noise_variance-2": f,
         "covariance-raw": lambda d: d.covariance(method_smoothing=None, kwargs_center={"method_smoothing": "LP", "bandwidth": h}),
@@ -480,10 +646,17 @@ RULE = ("n_obs 2..12 on grids of 2..9 points; every missingness pattern with >= 
         "patterns beyond (one in eight complete); integer grids (0..m-1, with gaps, days of the year) go through read_csv, [0,1] and "
         "non-uniform dyadic grids are hand-built; operations: to_long, mean LP/PS/interpolation, smooth LP (degree 1, 2)/PS (two "
         "settings)/interpolation, center LP/interpolation, norm (plain, squared standardised), noise_variance order 1/2, covariance "
-        "raw / LP-smoothed, inner_product, + - * / between datasets and with scalars. A case is one (dataset, operation); complete "
-        "data are additionally compared with the dense twin.")
+        "raw / LP-smoothed, inner_product, + - * / between datasets and with scalars; mean / center / raw covariance / inner_product "
+        "with method_smoothing='PS' against the pooled (correct) and last-observation (defect, F14) reference fits; one pattern in four "
+        "of the exhaustive part carries an observed value that is exactly 0. A case is one (dataset, operation); complete data are "
+        "additionally compared with the dense twin.")
 ASSUME = ["explicit bandwidth 1.5 x range (every sample has positive kernel weight) and explicit P-spline settings, so that smoothing is "
           "well posed with 2 samples per curve; degree-2 local fits only with >= 3 samples per curve",
           "tolerance between encodings 1e-9*scale (1e-6 after a P-spline solve, 1e-7 after 2-D / degree-2 local fits)",
           "the pandas row index of to_long (gaps left by dropna in the NaN encoding) is not part of the content and is not compared",
-          "inner_product of complete data is not compared with the dense twin (the irregular route estimates and removes a noise variance)"]
+          "inner_product of complete data is not compared with the dense twin (the irregular route estimates and removes a noise variance)",
+          "F14 reference fits call the real PSplines smoother (verified by C05) and, downstream of the mean, the real raw covariance / "
+          "interpolation / Gram code (C09, C08) on data centred by the reference mean; the correct reference is the pooled penalised "
+          "least-squares fit (weights = number of observations per point), which for complete data is the dense twin's P-spline mean "
+          "with penalty / n_obs (checked in every run); match with the defect model is required to 1e-9 relative, with the correct "
+          "model to 1e-6 (after a P-spline solve)"]
